@@ -316,6 +316,92 @@ def _same_bits(a, b):
     return a.shape == b.shape and a.dtype == b.dtype and a.tobytes() == b.tobytes()
 
 
+def _bits(v):
+    a = np.asarray(v)
+    return (a.dtype.str, a.shape, a.tobytes())
+
+
+def _freeze(d):
+    return {k: _bits(v) for k, v in d.items()}
+
+
+def _scribble(v):
+    """overwrite a returned array in place with different values"""
+    if v.dtype == bool:
+        v[...] = ~v
+    elif v.dtype.kind in 'iu':
+        v[...] = v + 1
+    else:
+        v[...] = np.where(np.isfinite(v), v * 1.5 + 1.0, 0.0)
+
+
+def live_objects(out, tag, factories, orders, exempt=(), volatile=()):
+    """Results of several live objects / calls must stay what they were and must not alias one another.
+
+    factories : [(label, make)]; ``make()`` builds the object (or calls the function) on its own input arrays and returns
+                ``(read, inputs)``: ``read(order)`` -> {name: result} (re-reads every result, in the given order),
+                ``inputs`` -> {name: caller's array}.  Objects are built and fully read one after the other.
+    exempt    : frozensets {name1, name2} of results of ONE object that are documented to be the same data
+    volatile  : results recomputed from other results at every read (excluded from the write probe only)
+    Clauses: <tag>-live-objects (a result changed after another object was evaluated), <tag>-alias (two results, or a
+    result and an input, share memory), <tag>-write-through (writing into one returned array changed another result/input).
+    """
+    live = []
+    for i, (label, make) in enumerate(factories):
+        read, inputs = make()
+        fin = _freeze(inputs)
+        res = read(orders[i % len(orders)])
+        live.append((label, read, inputs, res, _freeze(res), fin))
+    # (1) every result of every object read again after all the others were evaluated
+    for i, (label, read, inputs, res, frozen, fin) in enumerate(live):
+        again = read(orders[(i + 1) % len(orders)])
+        for k in frozen:
+            out.expect(k in again and _bits(again[k]) == frozen[k], tag + '-live-objects',
+                       '%s.%s changed after %d other object(s)/call(s) had been evaluated (first object: %s)' % (
+                           label, k, len(live) - 1, live[0][0]))
+            out.count('live_%s_rereads' % tag)
+    # (2) no two results, and no result and caller's array, share memory
+    arrs = []
+    for label, read, inputs, res, frozen, fin in live:
+        arrs += [(label, k, v) for k, v in res.items() if isinstance(v, np.ndarray) and v.ndim > 0]
+        arrs += [(label, 'input:' + k, v) for k, v in inputs.items()]
+    for i in range(len(arrs)):
+        for j in range(i + 1, len(arrs)):
+            (la, ka, va), (lb, kb, vb) = arrs[i], arrs[j]
+            if ka.startswith('input:') and kb.startswith('input:'):
+                continue
+            out.count('alias_pairs_checked')
+            if np.shares_memory(va, vb):
+                if la == lb and frozenset((ka, kb)) in exempt:
+                    out.count('alias_documented:%s %s/%s' % (tag, *sorted((ka, kb))))
+                    continue
+                out.fail(tag + '-alias', '%s.%s and %s.%s share memory' % (la, ka, lb, kb))
+    # (3) write into each returned array; every other result (of every object) and every input must be unaffected
+    dirty = set()
+    for label, read, inputs, res, frozen, fin in live:
+        for k, v in res.items():
+            if not (isinstance(v, np.ndarray) and v.ndim > 0 and v.size and v.flags.writeable):
+                continue
+            _scribble(v)
+            dirty.add((label, k))
+            for e in exempt:
+                if k in e:
+                    dirty.update((label, kk) for kk in e)
+            out.count('alias_write_probes')
+            for l2, read2, inputs2, res2, frozen2, fin2 in live:
+                now = read2(orders[0])
+                for k2 in frozen2:
+                    if (l2, k2) in dirty or k2 in volatile:
+                        continue
+                    if not (k2 in now and _bits(now[k2]) == frozen2[k2]):
+                        out.fail(tag + '-write-through', 'writing into %s.%s changed %s.%s' % (label, k, l2, k2))
+                        dirty.add((l2, k2))
+                for k2, v2 in inputs2.items():
+                    if ('in', l2, k2) not in dirty and _bits(v2) != fin2[k2]:
+                        out.fail(tag + '-write-through', 'writing into %s.%s changed the caller\'s array %s of %s' % (label, k, k2, l2))
+                        dirty.add(('in', l2, k2))
+
+
 def _lists(a):
     return np.asarray(a).tolist()
 
@@ -369,6 +455,7 @@ class C15(Check):
         'hmf_order_equal_seed_comparisons', 'hmf_order_resolves_of_one_object', 'hmf_order:build2_solve2', 'hmf_order:draw_between',
         'hmf_order:solve_twice', 'hmf_order:interleave_other_seed', 'hmf_order:reseed_between', 'hmf_order:random_program',
         'stale_chi2_rereads', 'stale_pcomp_rereads', 'stale_pca_recalls',
+        'live_chi2_rereads', 'live_pcomp_rereads', 'live_pca_rereads', 'live_hmf_rereads', 'alias_pairs_checked', 'alias_write_probes',
         'pcomp_two_variable_cases', 'hmf_seed_zero_cases', 'chi2_cancellation_would_show', 'chi2_cancellation_would_show_float32', 'hmf_reported_badness_checked',
         'chi2_zero_weight_cases', 'chi2_discriminating', 'pcomp_wide_cases', 'pca_projections', 'pca_masked_columns',
     )
@@ -791,6 +878,22 @@ class C15(Check):
                        '%s changed between reads / differs between two objects of the same system read in different orders' % name,
                        first=got[name], reread=v1, second_object=v2)
             out.count('stale_chi2_rereads')
+        # two (three) live objects: results of the first must survive the evaluation of the others and alias nothing
+        names = ['acoeff', 'chi2', 'yfit', 'dof', 'covar', 'var']
+
+        def chi2_factory(bb, ss, AA):
+            def make():
+                ins = {'bvec': bb.copy(), 'sqivar': ss.copy(), 'amatrix': AA.copy()}
+                obj = self.PM.computechi2(ins['bvec'], ins['sqivar'], ins['amatrix'])
+                return (lambda order: {k: getattr(obj, k) for k in order}), ins
+            return make
+        orders = [case['order'], case['order'][::-1], ['var', 'chi2', 'covar', 'yfit', 'dof', 'acoeff'],
+                  ['yfit', 'acoeff', 'dof', 'var', 'chi2', 'covar']]
+        live_objects(out, 'chi2', [
+            ('A', chi2_factory(b, sq, A)),
+            ('B(same shape, other system)', chi2_factory((np.roll(b, 1) * 1.5 + 1).astype(b.dtype), sq[::-1], A[::-1])),
+            ('C(two more rows)', chi2_factory(np.append(b, b[:2] + 1).astype(b.dtype), np.append(sq, sq[:2]), np.vstack([A, A[:2]]))),
+        ], orders, exempt=(frozenset(('covar', 'var')),))
         nz = int((sq == 0).sum())
         if nz:
             out.count('chi2_zero_weight_cases')
@@ -863,6 +966,20 @@ class C15(Check):
                        '%s changed between reads / differs between two objects of the same data read in different orders' % name,
                        first=got[name], reread=v1, second_object=v2)
             out.count('stale_pcomp_rereads')
+        def pcomp_factory(xx, cv):
+            def make():
+                ins = {'x': xx.copy()}
+                obj = self.PC.pcomp(ins['x'], standardize=std, covariance=cv)
+                return (lambda order: {k: getattr(obj, k) for k in order}), ins
+            return make
+        orders = [case['order'], case['order'][::-1], ['variance', 'derived', 'coefficients', 'eigenvalues'],
+                  ['derived', 'eigenvalues', 'coefficients', 'variance']]
+        live_objects(out, 'pcomp', [
+            ('A', pcomp_factory(x, cov)),
+            ('B(second sample of the same shape)', pcomp_factory(x[::-1, ::-1] * 2 + 1, cov)),
+            ('B2(same sample, %s matrix)' % ('correlation' if cov else 'covariance'), pcomp_factory(x, not cov)),
+            ('C(one more observation)', pcomp_factory(np.vstack([x, x[:1] * 3 + 2]), cov)),
+        ], orders)
         if n <= m:
             out.count('pcomp_wide_cases')
         if m == 2:
@@ -956,6 +1073,29 @@ class C15(Check):
         finally:
             np.random.set_state(state)
         (a1, g1, u1, c1), (a2, g2, u2, c2) = results
+
+        def hmf_factory(ss, ww, seed):
+            def make():
+                ins = {'spectra': ss.copy(), 'invvar': ww.copy()}
+                MON.reset_run(nonneg_data=nonneg_data)
+                hh = HMF(ins['spectra'], ins['invvar'], K=K, n_iter=min(n_iter, 2), seed=seed, nonnegative=nonneg, epsilon=eps)
+                res = hh.solve()
+                return (lambda order: {'acoeff': res['acoeff'], 'flux': res['flux'], 'a': hh.a, 'g': hh.g, 'model': hh.model()}), ins
+            return make
+        state = np.random.get_state()
+        before = dict(MON.evals)
+        try:
+            live_objects(out, 'hmf', [
+                ('A', hmf_factory(s0, w0, case['seed'])),
+                ('B(same shape, other spectra, other seed)', hmf_factory(s0[::-1] * 1.3, w0[::-1] / 1.69, case['seed'] + 1)),
+                ('C(one pixel less)', hmf_factory(s0[:, 1:], w0[:, 1:], case['seed'])),
+            ], [None], exempt=(frozenset(('acoeff', 'a')), frozenset(('flux', 'g'))), volatile=('model',))
+        except MonitorViolation as e:
+            clause, msg, detail = MON.failure or ('contract', str(e), {})
+            out.fail(clause, '%s [%s; live-objects solves]' % (msg, e), **detail)
+        finally:
+            np.random.set_state(state)
+            self._flush_contract_counters(out, before)
         out.count('hmf_same_seed_pairs')
         if case['seed'] == 0 and K >= 2:
             out.count('hmf_seed_zero_cases')
@@ -1089,6 +1229,19 @@ class C15(Check):
             out.expect(k in r2 and _same_bits(r[k], r2[k]), 'pca-stale-state',
                        'pca_solve called twice on the same input (another call in between) returned a different %r' % k)
         out.count('stale_pca_recalls')
+
+        def pca_factory(ff, vv):
+            def make():
+                ins = {'newflux': ff.copy(), 'newivar': vv.copy()}
+                res = self.S1.pca_solve(ins['newflux'], ins['newivar'], maxiter=case['maxiter'], niter=case['niter'], nkeep=nkeep,
+                                        nreturn=nreturn)
+                return (lambda order: dict(res)), ins
+            return make
+        live_objects(out, 'pca', [
+            ('A', pca_factory(flux, ivar)),
+            ('B(same shape, other spectra)', pca_factory(flux[::-1, ::-1] * np.float32(1.5), ivar[::-1, ::-1])),
+            ('C(one more pixel)', pca_factory(np.hstack([flux, flux[:, :1]]), np.hstack([ivar, ivar[:, :1]]))),
+        ], [None])
         out.nontrivial = bool((~good).any()) and nkeep >= 2
         out.info.update(nobj=nobj, npix=npix, nkeep=nkeep, nreturn=nreturn, niter=case['niter'], maxiter=case['maxiter'],
                         masked=int((~good).sum()), eigenval=ev)
